@@ -736,5 +736,5 @@ def known_class(sig, case):
 MANIFEST_ENTRY = {
     'technique': 'reference-model testing (text and documented value generated together from a macro grammar), ASM/HTML differential through the public expand() API, stateful rule-based histories, and placement invariance through skool2asm.main / skool2html.main',
     'level_text': 'Hypothesis draws abstract expansion units (nesting <= 4, all 19 operators, decimal/$hex literals, fields, positional/blank/omitted/keyword integer parameters, every documented bracket/delimiter form, #() pre-expansion, 18 macros + #DEF-defined macros); ref/macroref (written from skool-macros.rst, no skoolkit import) renders the text and its documented expansion in one pass over a variables/memory/snapshot-stack model; both writers must produce that value in all nine base x case modes; rule-based histories of state-changing macros are probed after every step; a sample is placed in seven places of a skool/ref file and run through the command-line entry points, #PC against its own rule.',
-    'level_note': 'Sampled, not exhaustive. Only forms the documentation makes unambiguous are generated (see ref/macroref.py docstring); units whose value the documentation does not define (negative operands of / % & | ^ << >>, #N of negatives, #SPACE at a stripped edge, etc.) are discarded, not judged. Five input classes are avoided by construction because they are findings of this check (FINDING_CLASSES; reproducers in corpus/C17/finding-*.json): & < > and quotes in #FOR/#FOREACH separators/items, quote delimiters inside loop bodies, #LET string values with outer whitespace, #DEF without flags of a defined name, & < > in #STR data. #FOREACH special variables (ENTRY/EREF/REF/POKEname) and the cfg dictionary are not generated.',
+    'level_note': 'Sampled, not exhaustive. Only forms the documentation makes unambiguous are generated (see ref/macroref.py docstring); units whose value the documentation does not define (negative operands of / % & | ^ << >>, #N of negatives, #SPACE at a stripped edge, etc.) are discarded, not judged. One input class is avoided by construction because it is known finding F38 (#DEF without flags of an already defined name; reproducer in corpus/C17); the four classes of the repaired F34-F37 (& < > and quotes in #FOR/#FOREACH separators/items, quote delimiters inside loop bodies, #LET string values with outer whitespace, & < > in #STR data) are searched again (DEFAULT_ALLOW). #FOREACH special variables (ENTRY/EREF/REF/POKEname) and the cfg dictionary are not generated.',
 }
